@@ -150,7 +150,8 @@ impl<'tcx> Cx<'tcx> {
         let mut bodies = Vec::new();
         for def in tcx.hir_body_owners() {
             let kind = tcx.def_kind(def);
-            if matches!(kind, DefKind::Fn | DefKind::AssocFn | DefKind::Closure | DefKind::SyntheticCoroutineBody) {
+            // statics too: their initialisers (Lazy::new(f)) are the only callers of some functions
+            if matches!(kind, DefKind::Fn | DefKind::AssocFn | DefKind::Closure | DefKind::SyntheticCoroutineBody | DefKind::Static { .. }) {
                 let (b, p) = tcx.mir_promoted(def);
                 let body: Body<'tcx> = b.borrow().clone();
                 let prom: Vec<Body<'tcx>> = p.borrow().iter().cloned().collect();
@@ -326,7 +327,7 @@ impl<'tcx> Cx<'tcx> {
         } else {
             J::Null
         };
-        let ckind = match tcx.coroutine_kind(did) {
+        let ckind = match if matches!(kind, DefKind::Static { .. }) { None } else { tcx.coroutine_kind(did) } {
             Some(k) => s(format!("{:?}", k)),
             None => J::Null,
         };
@@ -334,6 +335,7 @@ impl<'tcx> Cx<'tcx> {
             DefKind::Fn | DefKind::AssocFn => s(format!("{:?}", tcx.visibility(did))),
             _ => J::Null,
         };
+        let is_static = matches!(kind, DefKind::Static { .. });
         let (file, line, _) = self.span(body.span);
         let hi = {
             let sm = tcx.sess.source_map();
@@ -346,14 +348,14 @@ impl<'tcx> Cx<'tcx> {
         }
         let mut o = vec![
             ("id", s(self.path(did))),
-            ("kind", s(format!("{:?}", kind))),
+            ("kind", s(if is_static { "Static".to_string() } else { format!("{:?}", kind) })),
             ("parent", parent),
             ("coroutine", ckind),
             ("vis", vis),
             ("file", s(file)),
             ("line", J::Num(line)),
             ("line_hi", J::Num(hi)),
-            ("is_async", J::Bool(tcx.asyncness(did).is_async())),
+            ("is_async", J::Bool(!is_static && tcx.asyncness(did).is_async())),
         ];
         if let J::Obj(b) = self.dump_body(def, body) {
             o.extend(b);
@@ -735,6 +737,20 @@ impl<'tcx> Cx<'tcx> {
         o.push(("file", s(file)));
         o.push(("line", J::Num(line)));
         o.push(("exp", exp));
+        // full macro backtrace (innermost first) for call terminators: tells `panic!` written by hand from
+        // one generated inside `tokio::select!` / derives
+        if matches!(t.kind, TerminatorKind::Call { .. }) && t.source_info.span.from_expansion() {
+            let mut chain = Vec::new();
+            let mut sp = t.source_info.span;
+            let mut guard = 0;
+            while sp.from_expansion() && guard < 16 {
+                let ed = sp.ctxt().outer_expn_data();
+                chain.push(s(format!("{:?}", ed.kind)));
+                sp = ed.call_site;
+                guard += 1;
+            }
+            o.push(("exp_chain", J::Arr(chain)));
+        }
         J::Obj(o)
     }
 }
